@@ -404,7 +404,7 @@ pub fn prop() -> Prop<PCase> {
             "the harness is built with overflow checks on, so arithmetic overflow in the parser surfaces as a panic; the libFuzzer target (thorough) has the same oracle in-target",
         ],
         needs_shim: false,
-        budget: |t| t.pick(240_000, 6_000_000),
+        budget: |t| t.pick(1600000, 20000000),
         shards: |_| 16,
         strategy,
         exec,
